@@ -267,7 +267,13 @@ func init() {
 			dtls := c.P.Const("dtlsErrorDetectionMethod")
 			var dv int64
 			fmt.Sscan(dtls.Val().String(), &dv)
-			c.WritersWithin("send-flag", sz, "Association.handleInit", "Association.handleInitAck", "Association.setSendZeroChecksum")
+			{
+				allowed := []string{"Association.handleInit", "Association.handleInitAck", "Association.initWithOutOfBandTokens"}
+				if c.P.Fn("Association.setSendZeroChecksum") != nil { // a helper of the out-of-band path; may be inlined
+					allowed = append(allowed, "Association.setSendZeroChecksum")
+				}
+				c.WritersWithin("send-flag", sz, allowed...)
+			}
 			ks := keyer{}
 			nReset := 0
 			for _, a := range c.P.Writes(sz) {
@@ -653,8 +659,11 @@ func constFold(v ssa.Value, d int) (int64, bool) {
 }
 
 // derivesFromLocalToken: v is (an element of) the params list of the first chunk argument of fn.
-func derivesFromLocalToken(v ssa.Value, fn *ssa.Function) bool {
-	if len(fn.Params) < 2 {
+func derivesFromLocalToken(v ssa.Value, fn *ssa.Function) bool { return derivesFromLocalTokenIdx(v, fn, 1) }
+
+// derivesFromLocalTokenIdx: v is (an element of) the params list of parameter #idx of fn (1 = local token, 2 = remote).
+func derivesFromLocalTokenIdx(v ssa.Value, fn *ssa.Function, idx int) bool {
+	if len(fn.Params) <= idx {
 		return false
 	}
 	seen := map[ssa.Value]bool{}
@@ -666,7 +675,13 @@ func derivesFromLocalToken(v ssa.Value, fn *ssa.Function) bool {
 		seen[v] = true
 		switch x := unconv(v).(type) {
 		case *ssa.Parameter:
-			return x == fn.Params[1]
+			if x == fn.Params[idx] {
+				return true
+			}
+			if a := through(x); a != nil {
+				return walk(a, d+1)
+			}
+			return false
 		case *ssa.UnOp:
 			return walk(x.X, d+1)
 		case *ssa.FieldAddr:
